@@ -70,7 +70,7 @@ class CaseResult(object):
 class Profile(object):
     """One generated-search campaign of a property: strategy + executable oracle + budgets."""
 
-    def __init__(self, name, strategy, run, quick, thorough, timeout=120, shards=16, stateful=None, enumerate=None):
+    def __init__(self, name, strategy, run, quick, thorough, timeout=120, shards=16, stateful=None, enumerate=None, fuzz=None):
         self.name = name
         self.strategy = strategy     # callable returning a Hypothesis strategy of JSON-able cases
         self.run = run               # case -> CaseResult
@@ -80,6 +80,7 @@ class Profile(object):
         self.shards = shards
         self.stateful = stateful     # optional: callable(seed, n, stats) running a state machine itself
         self.enumerate = enumerate   # optional: callable(tier) -> list of cases executed exhaustively (no sampling)
+        self.fuzz = fuzz             # optional: (quick, thorough) libFuzzer executions per shard for an atheris campaign
 
 
 def case_hash(case):
